@@ -1,9 +1,10 @@
 #!/bin/bash
 # runs every registered check (quick by default) on the current tree; prints one line per check
 tier=${1:-quick}
+extra=""; [ -n "$2" ] && extra="--budget $2"   # optional: wall budget per check in seconds (thorough tier)
 cd ${VERIF_DIR:-/verif}
 for p in $(python3 -c "import json;print(' '.join(c['property_id'] for c in json.load(open('MANIFEST.json'))['checks']))"); do
-  out=$(./check $p --tier $tier 2>&1); rc=$?
+  out=$(./check $p --tier $tier $extra 2>&1); rc=$?
   echo "$p rc=$rc $(echo "$out" | tail -1 | cut -c1-160)"
   echo "$out" | grep -E "^VIOLATION|^KNOWN-FINDING|^HARNESS" | head -3
 done
